@@ -6,9 +6,12 @@ import (
 	"bytes"
 	"context"
 	"fmt"
+	control "github.com/longportapp/openapi-protobufs/gen/go/control"
+	"net"
 	"net/url"
 	"strings"
 	"sync"
+	"sync/atomic"
 	"time"
 
 	"github.com/gorilla/websocket"
@@ -453,6 +456,7 @@ func runC12(r *Run) {
 	r.c12TCPSequential(1, 16, 24)
 	r.c12TCPSequential(2, 16, 24)
 	c18DialContexts(r) // the first two bytes are the requested handshake, reserve nibble included
+	r.c12WSPingDuringBigWrite()
 	gs := [][4]int{{2, 40, 16, 0}, {8, 30, 16, 1024}, {16, 20, 4, 0}}
 	if r.thorough() {
 		gs = append(gs, [4]int{8, 200, 16, 1024}, [4]int{4, 100, 1, 0}, [4]int{16, 100, 8, 1})
@@ -499,4 +503,57 @@ func c18DialContexts(r *Run) {
 		r.st.Evaluations++
 	}
 	r.count("dial.contexts")
+}
+
+// c12WSPingDuringBigWrite: the client's keepalive pings fire while its writer is in the middle of large data messages
+// towards a peer that reads late: every binary message must still be exactly one whole frame, each accepted write
+// arrives once, and the pings get through.
+func (r *Run) c12WSPingDuringBigWrite() {
+	s, err := openSessionPrep("ws", 1, nil, client.Keepalive(200*time.Millisecond), client.KeepaliveTimeout(20*time.Second), client.MinGzipSize(0), client.WriteQueueSize(8))
+	if err != nil {
+		return
+	}
+	defer s.close()
+	pc := s.lk.(wsLink).pc
+	atomic.StoreInt32(&pc.stopRead, 1)
+	if tc, ok := pc.c.UnderlyingConn().(*net.TCPConn); ok {
+		tc.SetReadBuffer(8192) // so that the client's writer really blocks in the socket write
+	}
+	big := &control.Close{Reason: strings.Repeat("0123456789abcdef", 1<<19)} // 8 MiB
+	var chans []chan doResult
+	for i := 0; i < 3; i++ {
+		chans = append(chans, s.tc.doAsync(uint32(100+i), big, 6*time.Second))
+		time.Sleep(20 * time.Millisecond)
+	}
+	time.Sleep(1200 * time.Millisecond) // several keepalive ticks while the writer is blocked
+	atomic.StoreInt32(&pc.stopRead, 0)
+	frames, pings, bad := 0, 0, ""
+	deadline := time.Now().Add(5 * time.Second)
+	for time.Now().Before(deadline) && frames < 3 {
+		m := pc.next(time.Until(deadline))
+		if m == nil || m.kind == -1 {
+			break
+		}
+		switch m.kind {
+		case websocket.PingMessage:
+			pings++
+		case websocket.BinaryMessage:
+			f, n, verdict := refDecode(1, m.data)
+			if verdict != "OK" || n != len(m.data) {
+				bad = fmt.Sprintf("a binary message of %d bytes is not exactly one whole frame (%s)", len(m.data), verdict)
+			} else if f.Type == 1 && f.Cmd >= 100 {
+				frames++
+			}
+		}
+	}
+	cs := "ws: keepalive 200 ms, three 8 MiB requests towards a peer that starts reading after 1.2 s"
+	if bad != "" {
+		r.violate(Violation{What: bad, Case: cs})
+	} else if frames != 3 {
+		r.violate(Violation{What: fmt.Sprintf("%d of the 3 accepted frames arrived", frames), Case: cs})
+	}
+	r.st.Dist["c12.ws.ping-during-big-write.pings"] += pings
+	r.st.Dist["c12.ws.ping-during-big-write.pings-sent"] += s.tc.log.count("send ping")
+	r.st.Dist["c12.ws.ping-during-big-write.queue-full"] += s.tc.log.count("keepalive failed to ping")
+	r.st.Evaluations++
 }
